@@ -1,5 +1,6 @@
 import Csproto.Props.C02
 import Csproto.Bridge.Facts
+import Csproto.Bridge.WireFuncs
 /- axiom audit for C02 -/
 open Csproto
 #print axioms canon_encVarint
@@ -16,3 +17,12 @@ open Csproto
 #print axioms Bridge.wireTypes_ok
 #print axioms Bridge.encodeTag_src
 #print axioms Bridge.sizeOfTagKey_src
+
+-- the wire primitives TRANSLATED from the Go source (Generated/WireFuncs.lean) compute what the model says
+#print axioms Csproto.Bridge.WireFuncs.EncodeVarint_ok
+#print axioms Csproto.Bridge.WireFuncs.EncodeVarint_short
+#print axioms Csproto.Bridge.WireFuncs.DecodeVarint_eq
+#print axioms Csproto.Bridge.WireFuncs.DecodeFixed32_ok
+#print axioms Csproto.Bridge.WireFuncs.DecodeFixed32_short
+#print axioms Csproto.Bridge.WireFuncs.DecodeFixed64_ok
+#print axioms Csproto.Bridge.WireFuncs.DecodeFixed64_short
